@@ -387,6 +387,31 @@ func c14(c *h.Ctx) {
 	c14RunFrames(c, "corpus/F21", c14Case{true, false, 0, []wsFrame{
 		{Fin: true, Op: 8, Masked: true, Key: "01020304", Form: 0, Len: 1, Payload: "03"}}}, false)
 
+	// close frames whose reason is not UTF-8, every reason length up to the 123-byte maximum: a protocol violation
+	// that must be answered with a Close 1002 whatever the reason looks like (long, all-invalid, mostly ASCII)
+	for _, n := range []int{1, 2, 3, 10, 21, 22, 23, 40, 84, 85, 86, 100, 122, 123} {
+		for variant := 0; variant < 3; variant++ {
+			reason := make([]byte, n)
+			for i := range reason {
+				switch variant {
+				case 0:
+					reason[i] = 0xff
+				case 1:
+					reason[i] = byte('a' + i%26)
+				default:
+					reason[i] = byte(0x80 + i%0x40)
+				}
+			}
+			if variant == 1 {
+				reason[n-1] = 0xc3 // truncated two-byte sequence at the end of an otherwise ASCII reason
+			}
+			body := append([]byte{0x03, 0xe8}, reason...)
+			c14RunFrames(c, "close/invalid-utf8-reason", c14Case{false, false, 0, []wsFrame{
+				{Fin: true, Op: 1, Key: "-", Form: 0, Len: 2, Payload: "6869"},
+				{Fin: true, Op: 8, Key: "-", Form: 0, Len: uint64(len(body)), Payload: h.Hex(body)}}}, false)
+		}
+	}
+
 	base, full := c14Base(), c14Full()
 	limits := []int64{0, 2, 3, 5, 6, 7}
 
